@@ -42,7 +42,11 @@ pub use proptest;
 pub use serde;
 pub use serde_json;
 
-pub const VERIF_ROOT: &str = "/verif";
+/// Root of the verification tree. `/verif` unless VCORE_ROOT is set (scratch
+/// copies used for sensitivity experiments set it; see tools/scratch.sh).
+pub fn verif_root() -> PathBuf {
+    PathBuf::from(std::env::var("VCORE_ROOT").unwrap_or_else(|_| "/verif".to_string()))
+}
 
 // ---------------------------------------------------------------------------
 // Tier / flavour / args
@@ -234,7 +238,7 @@ struct Finding {
 }
 
 fn load_findings(id: &str) -> Vec<Finding> {
-    let path = Path::new(VERIF_ROOT).join("known_findings.jsonl");
+    let path = verif_root().join("known_findings.jsonl");
     let Ok(text) = std::fs::read_to_string(path) else {
         return Vec::new();
     };
@@ -592,7 +596,7 @@ impl Check {
         signature: &str,
         detail: &str,
     ) -> PathBuf {
-        let dir = Path::new(VERIF_ROOT).join("regressions").join(&self.id);
+        let dir = verif_root().join("regressions").join(&self.id);
         let _ = std::fs::create_dir_all(&dir);
         let file = dir.join(format!(
             "found-{}-{:016x}.json",
@@ -643,7 +647,7 @@ impl Check {
             self.note_sub(name, 1, 0, 0, false);
             return true;
         }
-        let dir = Path::new(VERIF_ROOT).join("regressions").join(&self.id);
+        let dir = verif_root().join("regressions").join(&self.id);
         let mut files: Vec<PathBuf> = std::fs::read_dir(&dir)
             .map(|rd| rd.filter_map(|e| e.ok()).map(|e| e.path()).collect())
             .unwrap_or_default();
@@ -1001,7 +1005,7 @@ impl Check {
             "violations": self.violations.len(),
         });
         if self.replay.is_none() {
-            let dir = Path::new(VERIF_ROOT).join("evidence");
+            let dir = verif_root().join("evidence");
             let _ = std::fs::create_dir_all(&dir);
             let path = dir.join(format!("{}.json", self.id));
             // Second flavour of the same invocation: merge with the first.
@@ -1178,7 +1182,7 @@ fn supervise(id: &str, tier: Tier, replay: Option<&Path>) -> ! {
     match status {
         None => {
             // Hang: keep the in-flight cases for manual triage, report inconclusive.
-            let dir = Path::new(VERIF_ROOT).join("harness/target/hangs");
+            let dir = verif_root().join("harness/target/hangs");
             let _ = std::fs::create_dir_all(&dir);
             for (i, (_, j)) in candidates().into_iter().enumerate() {
                 let _ = std::fs::write(dir.join(format!("{id}-hang-{i}.json")), j.to_string());
@@ -1205,7 +1209,7 @@ fn supervise(id: &str, tier: Tier, replay: Option<&Path>) -> ! {
                 cleanup(1);
             }
             // Find which in-flight case kills a fresh child.
-            let dir = Path::new(VERIF_ROOT).join("regressions").join(id);
+            let dir = verif_root().join("regressions").join(id);
             let _ = std::fs::create_dir_all(&dir);
             let mut reported = false;
             for (_, j) in candidates() {
